@@ -1,8 +1,10 @@
 (** C09 — every record appended by a worklist method conforms to the Tecan worklist grammar of its record
     type and, decoded by the independent parser of Spec/Gwl.v, returns exactly the arguments supplied;
     a call whose arguments cannot be represented raises and appends nothing.
-    Statements only; proofs live in Proofs/RecordsProofs.v, Proofs/TextExtraProofs.v and (program level:
-    C09_grammar_run, C09_grammar_run_any) Proofs/GrammarRunProofs.v.
+    Statements only; proofs live in Proofs/RecordsProofs.v, Proofs/TextExtraProofs.v, (program level:
+    C09_grammar_run, C09_grammar_run_any) Proofs/GrammarRunProofs.v and (keyword pass-through of aspirate /
+    dispense / transfer, last section: C09_aspirate_passthrough .. C09_transfer_passthrough)
+    Proofs/PassThroughProofs.v.
 
     FLOAT PRINTER (REVIEW2 N5) - applies to C09_decimal_value, C09_roundtrip_R_float,
     C09_reagent_float_end_to_end, to the float case of C09_distribute_end_to_end and to the float case of
@@ -32,7 +34,7 @@
 
     The value of a written decimal ([dec_val], [frac_val]) is defined in Spec/CmdParse.v. *)
 From Robo Require Import Prelude Str Wells Utils Labware Tips Records Params Worklist EvoCmd Program Gwl CmdParse
-  RecordsProofs TextExtraProofs RefinementProofs RefinementTextProofs GrammarRunProofs.
+  RecordsProofs TextExtraProofs RefinementProofs RefinementTextProofs GrammarRunProofs PassThroughProofs.
 From Coq Require Import Sorted Permutation.
 Local Open Scope string_scope.
 
@@ -946,3 +948,204 @@ Example C09_example_cmd_not_record :
   parse_record "B;Wash(3,1,1,1,0,""3.0"",500,""4"",500,10,70,30,1,0,1000,0);" = None /\
   parse_record "B;" = Some PB.
 Proof. vm_compute. split; reflexivity. Qed.
+
+(* ------------------------------------------------------------------------------------------ *)
+(** ** C09_passthrough: the keyword arguments of aspirate / dispense / transfer / distribute (REVIEW.md M15)
+
+    [aspirate] and [dispense] write one record per (well, volume) pair with a positive volume and hand their
+    keyword arguments [kw] (liquid class, tip, rack id, tube id, rack type, forced rack type) to each of them;
+    [transfer] does the same for both records of every step.  Everything below is about the TEXT of the records
+    as read by the independent parser.  [distribute]: labware names, rack ids / types, volume, liquid class, DiTi
+    reuse, multi-dispense count and direction in the parsed R record are C09_distribute_end_to_end above. *)
+
+(** the parsed record [p] shows the keyword arguments (for Tip.Any the mask field is empty: C10_any) *)
+Definition pass_kw (kw : kwargs) (p : pad) : Prop :=
+  k_liquid_class kw = PStr (pa_liquid_class p) /\ k_rack_id kw = PStr (pa_rack_id p) /\
+  k_tube_id kw = PStr (pa_tube_id p) /\ k_rack_type kw = PStr (pa_rack_type p) /\
+  k_forced kw = PStr (pa_forced_rack_type p) /\ tip_mask (k_tip kw) = Ok (pa_tip p).
+
+(** [r] is the record of the pair [wx] = (well id, volume): the volume is a positive number [v], [r] is an A
+    ([asp]) or D record, and its text parses to rack label [name], the device position of the well on labware
+    geometry [g], the volume [v] rounded to two decimals (in hundredths), and the keyword arguments *)
+Definition pass_record (d : device) (name : string) (g : geom) (asp : bool) (kw : kwargs)
+    (wx : string * xnum) (r : srec) : Prop :=
+  exists v f p, snd wx = XQ v /\ (0 < v)%Q /\
+    r = (if asp then RA f else RD f) /\
+    parse_record (render r) = Some (if asp then PA p else PD p) /\
+    pa_rack_label p = name /\
+    device_position d g (fst wx) = Ok (N.to_nat (pa_position p)) /\
+    Z.of_N (pa_volume_c p) = round2c v /\
+    pass_kw kw p.
+
+(** the comment lines of a label (C09_comment) *)
+Definition pass_label_lines (label : option string) : list string :=
+  match label with
+  | None => []
+  | Some s => if String.eqb s "" then [] else comment_lines s
+  end.
+
+(** the (well, volume) pairs with a positive volume, in call order (2-D arguments column-major, a single
+    volume broadcast) *)
+Definition pass_items (wells : arr string) (vols : arr xnum) : list (string * xnum) :=
+  filter (fun wx => xpos (snd wx)) (zip (flattenF wells) (broadcast (flattenF vols) (length (flattenF wells)))).
+
+(** an accepted [aspirate] appends the comment lines of the label and then exactly one A record per pair with a
+    positive volume, in order, each with the keyword arguments *)
+Theorem C09_aspirate_passthrough : forall s k wells vols label kw s' L,
+  aspirate s k wells vols label kw = (s', None) -> nth_error (st_lw s) k = Some L ->
+  exists new, st_wl s' = emit (st_wl s) (map RC (pass_label_lines label) ++ new) /\
+    Forall2 (pass_record (w_dev (st_wl s)) (lw_name L) (lw_geom L) true kw) (pass_items wells vols) new.
+Proof. exact pt_aspirate_ok. Qed.
+Print Assumptions C09_aspirate_passthrough.
+
+Theorem C09_dispense_passthrough : forall s k wells vols label comps kw s' L,
+  dispense s k wells vols label comps kw = (s', None) -> nth_error (st_lw s) k = Some L ->
+  exists new, st_wl s' = emit (st_wl s) (map RC (pass_label_lines label) ++ new) /\
+    Forall2 (pass_record (w_dev (st_wl s)) (lw_name L) (lw_geom L) false kw) (pass_items wells vols) new.
+Proof. exact pt_dispense_ok. Qed.
+Print Assumptions C09_dispense_passthrough.
+
+(** an A / D record whose text shows the keyword arguments (nothing is asked of other records) *)
+Definition pass_rec_kw (kw : kwargs) (r : srec) : Prop :=
+  match r with
+  | RA _ => exists p, parse_record (render r) = Some (PA p) /\ pass_kw kw p
+  | RD _ => exists p, parse_record (render r) = Some (PD p) /\ pass_kw kw p
+  | _ => True
+  end.
+
+(** every A and every D record appended by a [transfer] - accepted or stopped half-way, split or not - carries
+    the keyword arguments (hence all of them the same liquid class and the same mask: C10_passthrough_mask);
+    which records these are: C07_transfer_records, C07_pairing *)
+Theorem C09_transfer_passthrough : forall s ks swells kd dwells vols label ws pb kw s' e,
+  transfer s ks swells kd dwells vols label ws pb kw = (s', e) ->
+  exists new, st_wl s' = emit (st_wl s) new /\ Forall (pass_rec_kw kw) new.
+Proof. exact pt_transfer_any. Qed.
+Print Assumptions C09_transfer_passthrough.
+
+(** the same for [aspirate] and [dispense] whatever the outcome *)
+Theorem C09_aspirate_dispense_passthrough_any : forall s kw s' e,
+  (forall k wells vols label, aspirate s k wells vols label kw = (s', e) ->
+     exists new, st_wl s' = emit (st_wl s) new /\ Forall (pass_rec_kw kw) new) /\
+  (forall k wells vols label comps, dispense s k wells vols label comps kw = (s', e) ->
+     exists new, st_wl s' = emit (st_wl s) new /\ Forall (pass_rec_kw kw) new).
+Proof. exact pt_aspirate_dispense_any. Qed.
+Print Assumptions C09_aspirate_dispense_passthrough_any.
+
+(** REJECTION.  [aspirate] first charges the labware ([remove]), then writes the comment, then the records.
+    When the labware call is refused nothing is written (C02_aspirate_rejected).  When it was accepted
+    ([remove L wells vols label = (L', None)]) and the call raises all the same, the labware stays charged in
+    full and either the label was refused (a separator; nothing appended) or the record loop stopped at a pair
+    [wx]: the comment lines and the records of the pairs BEFORE [wx] are in the worklist, nothing of [wx] or
+    later.  [pass_offends]: the well of [wx] has no position on this device, or the record arguments were
+    refused by the validation of C09_prepare_ok *)
+Definition pass_offends (d : device) (name : string) (g : geom) (m : Q) (kw : kwargs)
+    (wx : string * xnum) (e : err) : Prop :=
+  device_position d g (fst wx) = Err e \/
+  exists pos, device_position d g (fst wx) = Ok pos /\
+              prepare_ad (ad_of_kw name pos (xq (snd wx)) kw) (Some m) = Err e.
+
+Theorem C09_aspirate_stopped : forall s k wells vols label kw s' e0 L L',
+  aspirate s k wells vols label kw = (s', Some e0) -> nth_error (st_lw s) k = Some L ->
+  remove L wells vols label = (L', None) ->
+  st_lw s' = upd (st_lw s) k L' /\
+  ((snd (comment (st_wl s) label) = Some e0 /\ st_wl s' = st_wl s) \/
+   (exists new pre wx post,
+      st_wl s' = emit (st_wl s) (map RC (pass_label_lines label) ++ new) /\
+      pass_items wells vols = (pre ++ wx :: post)%list /\
+      Forall2 (pass_record (w_dev (st_wl s)) (lw_name L) (lw_geom L) true kw) pre new /\
+      pass_offends (w_dev (st_wl s)) (lw_name L) (lw_geom L) (w_max (st_wl s)) kw wx e0)).
+Proof. exact pt_aspirate_stopped. Qed.
+Print Assumptions C09_aspirate_stopped.
+
+Theorem C09_dispense_stopped : forall s k wells vols label comps kw s' e0 L L',
+  dispense s k wells vols label comps kw = (s', Some e0) -> nth_error (st_lw s) k = Some L ->
+  add L wells vols label comps = (L', None) ->
+  st_lw s' = upd (st_lw s) k L' /\
+  ((snd (comment (st_wl s) label) = Some e0 /\ st_wl s' = st_wl s) \/
+   (exists new pre wx post,
+      st_wl s' = emit (st_wl s) (map RC (pass_label_lines label) ++ new) /\
+      pass_items wells vols = (pre ++ wx :: post)%list /\
+      Forall2 (pass_record (w_dev (st_wl s)) (lw_name L) (lw_geom L) false kw) pre new /\
+      pass_offends (w_dev (st_wl s)) (lw_name L) (lw_geom L) (w_max (st_wl s)) kw wx e0)).
+Proof. exact pt_dispense_stopped. Qed.
+Print Assumptions C09_dispense_stopped.
+
+(** a keyword argument that cannot be represented: liquid class / tube id not a str or with a separator, rack
+    id / rack type / forced rack type additionally longer than 32 characters, an invalid tip (C10_reject) *)
+Definition pass_kw_bad (kw : kwargs) : Prop :=
+  text_bad false (k_liquid_class kw) \/ text_bad true (k_rack_id kw) \/
+  text_bad false (k_tube_id kw) \/ text_bad true (k_rack_type kw) \/
+  text_bad true (k_forced kw) \/ exists e, tip_mask (k_tip kw) = Err e.
+
+(** EReject, EInvalidOp or ECompat: the errors of the record-writing part (as in C02) *)
+Definition pass_record_error (e : err) : Prop := e = EReject \/ e = EInvalidOp \/ e = ECompat.
+
+(** such an argument is refused for every record ... *)
+Theorem C09_kw_bad_refused : forall name pos v kw m, pass_kw_bad kw ->
+  exists e, prepare_ad (ad_of_kw name pos v kw) m = Err e.
+Proof. exact pt_kw_bad_prepare. Qed.
+Print Assumptions C09_kw_bad_refused.
+
+(** ... so (labware call and label accepted) what is left behind is exactly: the labware charged in full, the
+    comment lines in the worklist, and NO A / D record; the call raises (with a record error) if and only if
+    there is at least one positive volume - with none, nothing is validated and the call is accepted, in the
+    model as in the library (the keyword arguments are only looked at by aspirate_well / dispense_well) *)
+Theorem C09_aspirate_kw_rejected : forall s k wells vols label kw s' e L L',
+  pass_kw_bad kw -> aspirate s k wells vols label kw = (s', e) -> nth_error (st_lw s) k = Some L ->
+  remove L wells vols label = (L', None) -> snd (comment (st_wl s) label) = None ->
+  s' = set_wl (set_lw s k L') (emit (st_wl s) (map RC (pass_label_lines label))) /\
+  (e = None <-> pass_items wells vols = []) /\ (forall e0, e = Some e0 -> pass_record_error e0).
+Proof. exact pt_aspirate_kw_bad. Qed.
+Print Assumptions C09_aspirate_kw_rejected.
+
+Theorem C09_dispense_kw_rejected : forall s k wells vols label comps kw s' e L L',
+  pass_kw_bad kw -> dispense s k wells vols label comps kw = (s', e) -> nth_error (st_lw s) k = Some L ->
+  add L wells vols label comps = (L', None) -> snd (comment (st_wl s) label) = None ->
+  s' = set_wl (set_lw s k L') (emit (st_wl s) (map RC (pass_label_lines label))) /\
+  (e = None <-> pass_items wells vols = []) /\ (forall e0, e = Some e0 -> pass_record_error e0).
+Proof. exact pt_dispense_kw_bad. Qed.
+Print Assumptions C09_dispense_kw_rejected.
+
+(** non-vacuity ([ex_state Evo] of Proofs/RefinementProofs.v: trough "T4", 4 virtual rows x 2 columns, 500 per
+    column).  Three wells with liquid class "Water", tips [1; Tip.T3], rack id "12345": a comment and three A
+    records, each with mask 5 and the keyword arguments, parsed back ... *)
+Definition ex_pass_kw (lc : string) : kwargs :=
+  {| k_liquid_class := PStr lc; k_tip := TipMany [TInt 1; TTip 3]; k_rack_id := PStr "12345";
+     k_tube_id := PStr ""; k_rack_type := PStr ""; k_forced := PStr "" |}.
+
+Example C09_example_passthrough :
+  let r := aspirate (ex_state Evo) 1 (A1 ["A01"; "C01"; "B02"]) (A1 [XQ 10; XQ (41 # 2); XQ 30]) (Some "take")
+                    (ex_pass_kw "Water") in
+  snd r = None /\
+  map render (w_recs (st_wl (fst r))) =
+    ["C;take"; "A;T4;12345;;1;;10.00;Water;;5;"; "A;T4;12345;;3;;20.50;Water;;5;"; "A;T4;12345;;6;;30.00;Water;;5;"] /\
+  map parse_record (map render (w_recs (st_wl (fst r)))) =
+    [Some (PC "take");
+     Some (PA {| pa_rack_label := "T4"; pa_rack_id := "12345"; pa_rack_type := ""; pa_position := 1;
+                 pa_tube_id := ""; pa_volume_c := 1000; pa_liquid_class := "Water"; pa_tip := Some 5%N;
+                 pa_forced_rack_type := "" |});
+     Some (PA {| pa_rack_label := "T4"; pa_rack_id := "12345"; pa_rack_type := ""; pa_position := 3;
+                 pa_tube_id := ""; pa_volume_c := 2050; pa_liquid_class := "Water"; pa_tip := Some 5%N;
+                 pa_forced_rack_type := "" |});
+     Some (PA {| pa_rack_label := "T4"; pa_rack_id := "12345"; pa_rack_type := ""; pa_position := 6;
+                 pa_tube_id := ""; pa_volume_c := 3000; pa_liquid_class := "Water"; pa_tip := Some 5%N;
+                 pa_forced_rack_type := "" |})] /\
+  tip_mask (k_tip (ex_pass_kw "Water")) = Ok (Some 5%N) /\
+  pass_items (A1 ["A01"; "C01"; "B02"]) (A1 [XQ 10; XQ (41 # 2); XQ 30]) =
+    [("A01", XQ 10); ("C01", XQ (41 # 2)); ("B02", XQ 30)] /\
+  map (device_position Evo (lw_geom ex_t4)) ["A01"; "C01"; "B02"] = [Ok 1%nat; Ok 3%nat; Ok 6%nat] /\
+  map lw_vols (st_lw (fst r)) = [[3000; 0; 100; 0]; [939 # 2; 470]]%Q.
+Proof. vm_compute. repeat split; reflexivity. Qed.
+
+(** ... and with a separator in the liquid class (a zero volume in between is skipped): the trough has lost
+    10 + 30, the comment is written, no A record is, the call raises ValueError; with no positive volume the
+    same call is accepted *)
+Example C09_example_kw_rejected :
+  let r := aspirate (ex_state Evo) 1 (A1 ["A01"; "C01"; "B02"]) (A1 [XQ 10; XQ 0; XQ 30]) (Some "take")
+                    (ex_pass_kw "Wa;ter") in
+  let r0 := aspirate (ex_state Evo) 1 (A1 ["A01"; "C01"]) (A0 (XQ 0)) (Some "take") (ex_pass_kw "Wa;ter") in
+  pass_kw_bad (ex_pass_kw "Wa;ter") /\
+  snd r = Some EReject /\ map render (w_recs (st_wl (fst r))) = ["C;take"] /\
+  map lw_vols (st_lw (fst r)) = [[3000; 0; 100; 0]; [490; 470]]%Q /\
+  snd r0 = None /\ map render (w_recs (st_wl (fst r0))) = ["C;take"].
+Proof. split; [left; left; reflexivity|]. vm_compute. repeat split; reflexivity. Qed.
